@@ -13,8 +13,8 @@
    of the active path" and completeness for fresh prefixes are decided by the oracle on the
    implementation (computed from the definition's AST). *)
 From Coq Require Import List NArith.
-From BpafModel Require Import Shell Complete.
-From BpafLemmas Require Import ShellLaws CompleteLaws.
+From BpafModel Require Import Shell Complete Message CompEval.
+From BpafLemmas Require Import ShellLaws CompleteLaws CompInert CompAlways.
 Import ListNotations.
 
 (* a flag/argument name is offered only if the typed text is empty or `-`, or is exactly its short
@@ -119,3 +119,53 @@ Example C14_example_complete :
                 [] false false (PxLong [111]%N))
     = [mkShow [45;45;111;61;120]%N [120]%N None None; mkShow [] [70]%N None None].
 Proof. split; vm_compute; reflexivity. Qed.
+
+(* ------------------------------------------------------------------ the FIRST stage (Model/CompEval.v) *)
+(* Model/CompEval.v transcribes the hint bookkeeping of every parser (the evaluator of a build with `autocomplete`) and
+   check_complete; its completion text is compared byte for byte with the library's on every generated case. *)
+
+(* A command level that is left with the hints in hand -- its parser returned a value or an ordinary failure, no final
+   failure of a subcommand, no usage fallback on an empty scope -- answers with completion output as soon as the line
+   holds an item with valid UTF-8 text: never with that value, a help screen or an error message. *)
+Theorem C14_level_answers_with_completion_partial :
+  forall env inf m s r s1 c,
+    early inf s r = false -> lit_items s1 <> [] -> rev_ok (cs_rev c) ->
+    exists t, c_run_sub_body env inf m (s, Some c) (r, (s1, Some c)) = (SFail (FCompletion t), (s1, Some c)).
+Proof. exact level_answers_with_completion. Qed.
+Print Assumptions C14_level_answers_with_completion_partial.
+
+(* hidden items are never offered: whatever a parser under hide() pushed is dropped, the hints after it are the hints
+   collected before it *)
+Theorem C14_hidden_parser_offers_nothing :
+  forall cev s c,
+    snd (snd (c_hide_body cev (s, Some c))) = None \/ kcomps (snd (snd (c_hide_body cev (s, Some c)))) = cs_comps c.
+Proof. exact hide_drops_hints. Qed.
+Print Assumptions C14_hidden_parser_offers_nothing.
+
+(* the name of a subcommand typed as the last item: the command is not entered (names that belong only to it cannot be
+   offered), the one hint is the command name itself *)
+Theorem C14_command_name_typed_last :
+  forall docgen name aliases shorts help adjacent m i run s c s1,
+    take_cmd_any ((name :: aliases) ++ map utf8_encode_char shorts) s = (true, s1) ->
+    touching_last s1 (Some c) = true ->
+    c_cmd_body docgen name aliases shorts help adjacent m i run (s, Some c) =
+    (RErr (MsgMissing []),
+     (s1, Some (mkCst [CoCommand (mkExtra (depth s1) None (help_completion docgen help)) (chars_of name) (hd_error shorts)]
+                      (cs_rev c) (cs_nopos c)))).
+Proof. exact cmd_name_last. Qed.
+Print Assumptions C14_command_name_typed_last.
+
+(* without a request the completers and the bookkeeping change nothing (see C20) *)
+Theorem C14_no_request_no_completion :
+  forall feat env o name argv,
+    (forall w, In w argv -> marker_rev w = None) ->
+    c_run_inner feat env o name argv None = run_inner feat env (erase_o o) name argv.
+Proof. exact c_run_inner_no_request. Qed.
+Print Assumptions C14_no_request_no_completion.
+
+(* non-vacuity: `-` typed after nothing, a switch -v with help: the outcome is completion output naming -v *)
+Example C14_example_first_stage :
+  exists t, c_run_inner (mkFeat true true false) (fun _ => None)
+              (XOptions (XFlag (mkNamed [118%N] [] [] None) (VBool true) (Some (VBool false))) default_info)
+              None [[45%N]] (Some 0) = OutCompletion t.
+Proof. vm_compute. eexists. reflexivity. Qed.
